@@ -36,7 +36,7 @@ func storesInto(w *World, e *termEnv, fn *ssa.Function, pkgPath, typeName string
 }
 
 func propC11(w *World, r *Report) {
-	r.Explanation = "Decided clause — wiring/provenance only: (H1) each cptv.Header field is fed from its specified source (device name/id, preview-secs, camera fps, brand/model/serial/firmware arguments, location fields, YAML of the motion config plus 'triggeredthresh: <threshold argument>', background frame argument, resolution through the CameraSpec handed to NewFileWriter), all three recorder construction sites in the connection handler pass headerInfo's Brand/Model/CameraSerial/Firmware in that order, and the recorder's WriteFrame hands every frame to the CPTV writer once and returns its error; (H2) every HeaderInfo getter returns the field that ReadHeaderInfo fills from the like-named header key; (H3) ParseConfig, recorder.NewConfig, motion.NewConfig and throttle.NewConfig copy each setting from the like-named go-config field of the right config section, a section / sub-loader / window that fails aborts loading with its error, the configuration is read from the configured directory, and trigger-frames counts from the end of the previous recording; (H4) the connection handler loads the motion config for headerInfo.Model() before any recorder or the processor is built, all of them share that config object, and LoadMotionConfig stores motion.NewConfig's result; (H5) the parser selection maps (flir, lepton3|lepton3.5) to the Lepton parser, (flir, boson) to the Boson parser and everything else to 'cannot handle'. Rule: provenance normal forms compared against a table written from the statement."
+	r.Explanation = "Decided clause — wiring/provenance only: (H1) each cptv.Header field is fed from its specified source (device name/id, preview-secs, camera fps, brand/model/serial/firmware arguments, location fields, YAML of the motion config plus 'triggeredthresh: <threshold argument>', background frame argument, resolution through the CameraSpec handed to NewFileWriter), all three recorder construction sites in the connection handler pass headerInfo's Brand/Model/CameraSerial/Firmware in that order, and the recorder's WriteFrame hands every frame to the CPTV writer once and returns its error; (H2) every HeaderInfo getter returns the field that ReadHeaderInfo fills from the like-named header key; (H3) ParseConfig, recorder.NewConfig, motion.NewConfig and throttle.NewConfig copy each setting from the like-named go-config field of the right config section, a section / sub-loader / window that fails aborts loading with its error, the configuration is read from the configured directory, and trigger-frames counts from the end of the previous recording; (H4) the connection handler loads the motion config for headerInfo.Model() before any recorder or the processor is built, all of them share that config object, and LoadMotionConfig stores motion.NewConfig's result; (H5) the parser selection maps (flir, lepton3|lepton3.5) to the Lepton parser, (flir, boson) to the Boson parser and everything else to 'cannot handle'. Rule: provenance normal forms compared against a table written from the statement. Also (H4, contradiction rule) the motion settings validator does not reject the zero value of a setting that the detector gives a meaning of its own."
 	r.RuleText = "obligation per (rule, field / key / call site)"
 	r.Assumptions = []string{"pixel/telemetry fidelity of the CPTV codec and the YAML encoders are dependencies and data dependent: not decided",
 		"go-config's struct tags map TOML keys to the named fields (dependency)", "cross-reference (not a verdict): the error of LoadMotionConfig is dropped by the connection handler"}
@@ -398,6 +398,7 @@ func propC11(w *World, r *Report) {
 		if !okStore {
 			r.Floor("H4", 5)
 		}
+		checkValidatorVsConsumer(w, r, "H4")
 	}
 	// a file bears its final name only once its content is complete: closed (compressed, counts written) before the
 	// rename (the stop-path rules of C10)
@@ -946,4 +947,136 @@ func pathOnNilEdge(p *Path, c *ssa.Call) bool {
 
 func errorIface() *types.Interface {
 	return types.Universe.Lookup("error").Type().Underlying().(*types.Interface)
+}
+
+// checkValidatorVsConsumer is a contradiction rule (two places of the repository stating opposite beliefs about one
+// value): where the detector gives the zero value of a motion setting a meaning of its own ("if d.tempThreshMax != 0":
+// zero = no maximum), zero is an in-range value of that setting, and the validator of the motion settings must not
+// reject it - every rejecting path of the validator that looks at the setting is guarded by "setting != 0" (or > 0).
+// Rejected, the loader fails, the connection handler goes on, and the files carry all-zero motion settings.
+func checkValidatorVsConsumer(w *World, r *Report, rule string) {
+	vc := w.Func("motion", "validateConfig")
+	ctor := w.Func("motion", "NewMotionDetector")
+	if vc == nil || ctor == nil {
+		r.Unknown(rule, "motion settings validator / detector constructor", "-", "not found")
+		return
+	}
+	e := newTermEnv(w)
+	// detector field -> setting it is initialised from (constructor stores)
+	fromSetting := map[string]string{}
+	for _, b := range ctor.Blocks {
+		for _, in := range b.Instrs {
+			st, ok := in.(*ssa.Store)
+			if !ok {
+				continue
+			}
+			fa, ok := st.Addr.(*ssa.FieldAddr)
+			if !ok || !typeIs(fa.X.Type(), modPath+"/motion", "motionDetector") {
+				continue
+			}
+			t := e.termOf(st.Val).String()
+			if i := strings.Index(t, "ThermalMotion."); i >= 0 && !strings.ContainsAny(t, "(+*") {
+				f := t[i+len("ThermalMotion."):]
+				if j := strings.IndexAny(f, "@) ,"); j >= 0 {
+					f = f[:j]
+				}
+				fromSetting[structOf(fa.X.Type()).Field(fa.Field).Name()] = f
+			}
+		}
+	}
+	// settings whose zero value the detector singles out
+	special := map[string]string{}
+	for _, fn := range w.RepoFuncs() {
+		if fn.Pkg == nil || fn.Pkg.Pkg.Path() != modPath+"/motion" {
+			continue
+		}
+		for _, b := range fn.Blocks {
+			iff, ok := b.Instrs[len(b.Instrs)-1].(*ssa.If)
+			if !ok {
+				continue
+			}
+			bo, ok := iff.Cond.(*ssa.BinOp)
+			if !ok || (bo.Op != token.NEQ && bo.Op != token.EQL) {
+				continue
+			}
+			for _, pair := range [][2]ssa.Value{{bo.X, bo.Y}, {bo.Y, bo.X}} {
+				c, isC := pair[1].(*ssa.Const)
+				if !isC || c.Value == nil || c.Value.Kind() != constant.Int || constant.Sign(c.Value) != 0 {
+					continue
+				}
+				if u, ok := pair[0].(*ssa.UnOp); ok && u.Op == token.MUL {
+					if fa, ok := u.X.(*ssa.FieldAddr); ok && typeIs(fa.X.Type(), modPath+"/motion", "motionDetector") {
+						if s, ok := fromSetting[structOf(fa.X.Type()).Field(fa.Field).Name()]; ok {
+							special[s] = w.InstrPos(iff)
+						}
+					}
+				}
+			}
+		}
+	}
+	paths, complete := enumPaths(e, vc, 128)
+	if !complete {
+		r.Unknown(rule, "motion settings validator", w.Pos(vc.Pos()), "not loop-free")
+		return
+	}
+	var names []string
+	for s := range special {
+		names = append(names, s)
+	}
+	sort.Strings(names)
+	for _, s := range names {
+		bad := ""
+		for _, p := range paths {
+			if len(p.Ret.Results) == 0 {
+				continue
+			}
+			if c, ok := p.Ret.Results[len(p.Ret.Results)-1].(*ssa.Const); ok && c.IsNil() {
+				continue
+			}
+			looks, excluded := false, false
+			for _, g := range p.Conds {
+				gs := g.String()
+				if !strings.Contains(gs, "ThermalMotion."+s+"@") {
+					continue
+				}
+				looks = true
+				// "x < setting" cannot hold for setting = 0 when the setting is unsigned
+				if strings.HasPrefix(gs, "lt(") && strings.HasSuffix(gs, ", config.ThermalMotion."+s+"@param:config.ThermalMotion)") && unsignedSetting(vc, s) {
+					excluded = true
+				}
+				for _, pre := range []string{"ne(0, ", "lt(0, ", "gt("} {
+					if strings.HasPrefix(gs, pre) && strings.Count(gs, "ThermalMotion.") == 1 && (pre != "gt(" || strings.HasSuffix(gs, ", 0)")) {
+						excluded = true
+					}
+				}
+			}
+			if looks && !excluded && bad == "" {
+				bad = strings.Join(guardStrings(p.Conds), " ∧ ")
+			}
+		}
+		name := "the validator does not reject " + s + " = 0, which the detector gives a meaning of its own"
+		if bad != "" {
+			r.Fail(rule, name, w.Pos(vc.Pos()), "a rejecting path looks at "+s+" without excluding 0 ["+bad+"], while the detector singles out 0 at "+special[s]+": a configuration that leaves the setting at 0 fails to load, the handler goes on, and the files carry all-zero motion settings", "")
+		} else {
+			r.Pass(rule, name, w.Pos(vc.Pos()), fmt.Sprintf("%d validator paths; zero singled out at %s", len(paths), special[s]))
+		}
+	}
+	r.Check(len(names) >= 1, "G4", "settings whose zero value the detector singles out", "-", strings.Join(names, ","))
+}
+
+func unsignedSetting(vc *ssa.Function, field string) bool {
+	if len(vc.Params) == 0 {
+		return false
+	}
+	st := structOf(vc.Params[0].Type())
+	if st == nil {
+		return false
+	}
+	for i := 0; i < st.NumFields(); i++ {
+		if st.Field(i).Name() == field {
+			bt, ok := st.Field(i).Type().Underlying().(*types.Basic)
+			return ok && bt.Info()&types.IsUnsigned != 0
+		}
+	}
+	return false
 }
